@@ -5,6 +5,8 @@ import "verif/sim/driver"
 // stride separates the elements of different inputs.
 const stride = 100000
 
+func init() { driver.InputStride = stride }
+
 // elements of input i are distinct and attributable: stride*i+index (the very
 // first element is 0: the zero value must travel like any other).
 func elems(input, n int) []int {
